@@ -30,6 +30,14 @@ pub struct ParsedTestCase {
 }
 
 impl ParsedTestCase {
+    /// Names of the virtual signals declared in the test
+    pub(crate) fn declared_names(&self) -> Vec<String> {
+        self.virtual_signals
+            .iter()
+            .map(|(virt, _)| virt.name.clone())
+            .collect()
+    }
+
     /// Construct a complete test case by supplying a description of the
     /// input and expected signals of the device under test
     pub fn with_signals(mut self, mut signals: Vec<Signal>) -> Result<TestCase, SignalError> {
